@@ -35,7 +35,9 @@ line = st.lists(st.sampled_from(LINE_ATOMS), max_size=6).map("".join)
 RTL_ATOMS = ["سلام", "کتاب ", "لا", "بَ", "می‌روم", " ", "abc", "x ", "(", ")", "12", "\t", "و", "ـ", "日"]
 rtlline = st.lists(st.sampled_from(RTL_ATOMS), max_size=7).map("".join)
 RTLKEYS = [":se td=-1\n", ":se td=1\n", ":se td=2\n", ":se td=-2\n", ":se order=0\n", ":se order=2\n", ":se noshape\n", ":se shape\n", ":se lim=12\n", "i\x05ab\x1b", "A\x05 z\x1b",
-           "x", "3l", "2h", "$", "0", "8|", "15|", "rب", "~", "J", "dw", "D"]
+           "x", "3l", "2h", "$", "0", "8|", "15|", "rب", "~", "J", "dw", "D",
+           # a sticky column beyond the end of the line reached (the line ending in a reversed run)
+           "$j", "$k", "30|j", "30|k", "$jj", "G$k"]
 longline = st.tuples(line, st.integers(2, 12)).map(lambda t: (t[0] + " ") * t[1])
 
 KEYS = ["j", "k", "l", "h", "w", "b", "$", "0", "G", "1G", "5G", "H", "M", "L", "3j", "4k", "10l", "}", "{",
@@ -113,6 +115,19 @@ def rtlfill(draw):
             draw(st.sampled_from(["", ":se order=2\n", ":se order=0\n"])), "%d|" % n] + extra, "win": False}
 
 
+@st.composite
+def rtlcur(draw):
+    """small buffers of left-to-right lines with reversed runs, default options, plain motions: the cursor clause for such lines"""
+    ara = ["ا", "ب", "پ", "ل", "م", "ی", "ک"]
+    def ln():
+        parts = draw(st.lists(st.one_of(st.sampled_from(["ab", "x", "foo", "1", " ", " ", "- "]), st.lists(st.sampled_from(ara), min_size=1, max_size=4).map("".join)), min_size=1, max_size=6))
+        s_ = "".join(parts)
+        return ("a" + s_) if s_[0] in ara or s_[0] in " -" else s_          # (left-to-right context: the line starts with a Latin letter)
+    lines = [draw(st.one_of(st.just("abcdefghijklmnopqrstuvwxyz"), st.builds(ln))) for _ in range(draw(st.integers(2, 5)))]
+    keys = draw(st.lists(st.sampled_from(["$", "j", "k", "$j", "$k", "l", "h", "3l", "w", "b", "e", "0", "9|", "30|", "G", "1G", "x", "rq"]), min_size=1, max_size=7))
+    return {"lines": lines, "rows": 12, "cols": 60, "keys": keys, "win": False, "rtl": True}
+
+
 def strategy(tier):
     return case()
 
@@ -137,9 +152,30 @@ def extra(env, tier, seed):
         body()
     except AssertionError:
         pass
-    return [{"name": "right_to_left_line_fills_the_window", "exhaustive": False, "evaluations": st_["n"], "distinct_nontrivial": st_["n"],
-             "samples": ["td=-2, line of 3 x window width, N| into its middle: no blank cell in the row"],
-             "violations": ([{"case": st_["fail"]}] if st_["fail"] else [])}]
+    res = [{"name": "right_to_left_line_fills_the_window", "exhaustive": False, "evaluations": st_["n"], "distinct_nontrivial": st_["n"],
+            "samples": ["td=-2, line of 3 x window width, N| into its middle: no blank cell in the row, the cursor on the cell of the character x deletes"],
+            "violations": ([{"case": st_["fail"]}] if st_["fail"] else [])}]
+    st2 = {"n": 0, "chk": 0, "fail": None}
+
+    @hseed(seed + 4712)
+    @settings(max_examples=150 if tier == "quick" else 3000, database=None, deadline=None, suppress_health_check=list(HealthCheck), phases=[Phase.generate, Phase.shrink],
+              print_blob=False, report_multiple_bugs=False)
+    @given(rtlcur())
+    def body2(c):
+        o = run_case(env, c)
+        st2["n"] += 1
+        st2["chk"] += "rtl_cursor_checked" in (o.classes or [])
+        if not o.ok and not o.inconclusive and not o.known:
+            st2["fail"] = c
+            raise AssertionError("violation")
+    try:
+        body2()
+    except AssertionError:
+        pass
+    res.append({"name": "cursor_on_its_character_in_lines_with_reversed_runs", "exhaustive": False, "evaluations": st2["n"], "distinct_nontrivial": st2["chk"],
+                "samples": ["abc..z / ab + Arabic run, keys $ j: the terminal cursor is on the cell of the character the buffer cursor is on"],
+                "violations": ([{"case": st2["fail"]}] if st2["fail"] else [])})
+    return res
 
 
 def run_rtlfill(env, c):
@@ -273,6 +309,21 @@ def run_case(env, c):
         return Outcome(False, nt, cl, detail={"why": "incremental drawing differs from a full repaint (^L) in text row(s) %s" % bad[:5], "keys": c["keys"], "rows": rows,
                                              "cols": cols, "lines": c["lines"][:12], "incremental": [rows_a[i] for i in bad[:3]], "repaint": [rows_b[i] for i in bad[:3]]})
     if c.get("rtl"):
+        # the cursor clause for lines with reversed runs, where the layout is easy to state: default options, a left-to-right line that
+        # fits the window, a buffer that fits the window - the terminal cursor is on a cell of the character commands act on
+        if not c["win"] and out_lines and cur is not None and len(out_lines) <= nrows_text and not any(":se " in k or "\x17" in k for k in c["keys"]):
+            l = out_lines[cur[0]]
+            if l and cur[1] < len(l) and any(ch in t.cr2l for ch in l) and not any(ch in "\\$`'*[]{}\t" for ch in l):
+                from models import vim
+                v = vim.Vi([l], rows, t)
+                pos = v.positions(0)
+                if v.context(0) > 0 and pos[len(l)] < cols:
+                    col = pos[cur[1]]
+                    w = max(1, t.cwid(ord(l[cur[1]]), col))
+                    if ta.r != cur[0] or not (col <= ta.c <= col + w - 1):
+                        return Outcome(False, nt, cl + ["rtl"], detail={"why": "terminal cursor (row %d, column %d) is not on the cells [%d,%d] of row %d where the cursor character is drawn" %
+                                                                        (ta.r, ta.c, col, col + w - 1, cur[0]), "keys": c["keys"], "line": l, "cursor": cur, "lines": c["lines"][:8]})
+                    return Outcome(True, nt, cl + ["rtl", "rtl_cursor_checked"])
         return Outcome(True, nt, cl + ["clause1_only", "rtl"])
     if c["win"] or out_lines is None or cur is None:
         return Outcome(True, nt, cl + ["clause1_only"])
